@@ -36,6 +36,9 @@ CHECKS['C07']=dict(level='exploration', ref='4.7', technique='deterministic simu
    text='Every part produced is checked for size, header octets, counters and part count against a reference greedy splitter (more than 255 parts must be refused); the handset reassembles with ParseLongSmsContent while a second vendor sends 16-bit-reference messages whose references collide when ORed; exact tuples and near-miss headers are sampled on the parser.', note=LS_NOTE)
 CHECKS['C14']=dict(level='exploration', ref='4.14', technique='deterministic simulation: per-part decode at the handset (reference decoders) after seeded reordering on the air link; multi-unit characters generated across every part boundary',
    text='Texts with GSM-7 escape pairs, surrogate pairs and 2-/4-octet GB18030 characters placed at offsets -2..+1 around every part boundary are split, transported and reassembled; each part must decode on its own and the concatenation of the separately decoded parts must equal the text.', note=LS_NOTE)
+CHECKS['C09']=dict(level='exploration', ref='4.9', technique='deterministic simulation: seeded cooperative scheduler (testing/synctest bubble) interleaving the errgroup workers the library starts itself, Go map order replaced by the seed through a hook, same request repeated K times per run',
+   text='Each request (content x candidate list x origin coding x protocol) is built 2..8 times in one run under seed-chosen candidate-slice order and worker interleaving, with a second task hammering the shared pools; all results must be identical, the winner must need the fewest parts among the candidates the reference repertoire check accepts (ties by priority), UCS-2 fallback otherwise, and the parts must decode to the content.',
+   note='Between two yield sites a task runs atomically; candidates of the wrong protocol type are out of contract and not generated; tie-break priority is read through the public Priority() accessor.')
 PENDING = {}
 def load_extra():
     try:
